@@ -193,22 +193,33 @@ func genG08(repo string, w *Out) error {
 	}
 	addrOff := v[0]
 	w.DefN("t_addr_off", addrOff)
-	nAtoi := g08count(pvs, "strconv.Atoi(string(buf))")
-	nUint := g08count(pvs, "strconv.ParseUint(string(buf), 10, 16)")
+	nAtoi := g08count(pvs, "port, err := strconv.Atoi(string(buf))")
+	nUint := g08count(pvs, "port, err := strconv.ParseUint(string(buf), 10, 16)")
+	nStrict := g08count(pvs, "port, err := parsePort(buf)")
 	switch {
-	case nAtoi == 2 && nUint == 0:
+	case nAtoi == 2 && nUint == 0 && nStrict == 0:
 		w.DefN("t_port_parser", 0)
-	case nAtoi == 0 && nUint == 2:
+	case nAtoi == 0 && nUint == 2 && nStrict == 0:
 		w.DefN("t_port_parser", 1)
+	case nAtoi == 0 && nUint == 0 && nStrict == 2:
+		pp, err := f1.Func("parsePort")
+		if err != nil {
+			return err
+		}
+		want := `{ if len(buf) > 1 && buf[0] == '0' { return 0, errors.New("leading zero") } port, err := strconv.ParseUint(string(buf), 10, 16) if err != nil { return 0, err } return int(port), nil }`
+		if got := f1.Src(pp.Body); got != want {
+			return fmt.Errorf("parsePort is not the shape the model knows: %s", got)
+		}
+		w.DefN("t_port_parser", 2)
 	default:
-		return fmt.Errorf("parseV1Header: ports are parsed by neither 2x strconv.Atoi nor 2x strconv.ParseUint(.., 10, 16)")
+		return fmt.Errorf("parseV1Header: ports are parsed by neither 2x strconv.Atoi, 2x strconv.ParseUint(.., 10, 16) nor 2x parsePort")
 	}
-	if g08count(pvs, "net.ParseIP(string(buf))") != 2 {
+	if g08count(pvs, "ip := net.ParseIP(string(buf))") != 2 {
 		return fmt.Errorf("parseV1Header: expected two net.ParseIP(string(buf)) calls")
 	}
 	// the four positions must be handled in the order ip, ip, port, port
-	order := regexp.MustCompile(`case 0: ip := net\.ParseIP.*src\.IP = ip case 1: ip := net\.ParseIP.*dest\.IP = ip case 2: port, err := strconv\..*src\.Port = int\(port\)|case 0: ip := net\.ParseIP.*src\.IP = ip case 1: ip := net\.ParseIP.*dest\.IP = ip case 2: port, err := strconv\..*src\.Port = port`)
-	if !order.MatchString(pvs) || !regexp.MustCompile(`case 3: port, err := strconv\..*dest\.Port = (int\(port\)|port) done = true`).MatchString(pvs) {
+	order := regexp.MustCompile(`switch pos \{ case 0: ip := net\.ParseIP.*? src\.IP = ip case 1: ip := net\.ParseIP.*? dest\.IP = ip case 2: port, err := .*? src\.Port = (int\(port\)|port) case 3: port, err := .*? dest\.Port = (int\(port\)|port) done = true`)
+	if !order.MatchString(pvs) {
 		return fmt.Errorf("parseV1Header: the switch on pos does not assign src.IP, dest.IP, src.Port, dest.Port in that order")
 	}
 	w.DefBool("t_v1_sep_check", strings.Contains(pvs, fmt.Sprintf("if buf[%d] != ' ' {", addrOff-1)))
